@@ -58,10 +58,13 @@ package httpserver
 
 import (
 	"bytes"
+	"encoding/base64"
 	"encoding/hex"
 	"encoding/json"
 	"fmt"
 	"math"
+	"net/http"
+	"net/url"
 	"regexp"
 	"sort"
 	"strings"
@@ -91,27 +94,62 @@ type c06SigCfg struct {
 	TTLs        int64       `json:"ttl_s"`
 	ExcludeBody bool        `json:"exclude_body"`
 	Aws         bool        `json:"aws_literals"`
+
+	// TTLFracMs: additional milliseconds of the ttl (only with TTLs >= 1);
+	// TTLForm: how the duration is written in the spec ("" = "<n>s"/"<n>ms", "go" = Go duration string such as 1m30.5s)
+	TTLFracMs int64  `json:"ttl_frac_ms,omitempty"`
+	TTLForm   string `json:"ttl_form,omitempty"`
+	// Cred: accessKeyId/accessKeySecret of the spec (documented as "used to set
+	// credential"; its id is never one of Keys). NoMap: accessKeys is omitted.
+	Cred  [2]string `json:"cred"`
+	NoMap bool      `json:"no_map,omitempty"`
+	// SignOpts: ignoredHeaders and headerHoisting are configured (they describe
+	// what the signing side leaves out / moves; a verifier has nothing to ignore)
+	SignOpts bool `json:"sign_opts,omitempty"`
+	// NoPrefix (only with Aws): the literal section omits signingKeyPrefix
+	NoPrefix bool `json:"no_prefix,omitempty"`
+}
+
+func (s *c06SigCfg) ttlNs() int64 {
+	if s.TTLs <= 0 {
+		return 0
+	}
+	f := s.TTLFracMs
+	if f < 0 || f > 999 {
+		f = 0
+	}
+	return s.TTLs*int64(time.Second) + f*int64(time.Millisecond)
 }
 
 type c06User struct {
 	Name  string `json:"name"`
 	Pass  string `json:"pass"`
-	Store string `json:"store"` // sha | plain
+	Store string `json:"store"` // sha | plain | apr1 | bcrypt | ssha
+	// KeyOnly: the etcd entry has no "username", its "key" is the user name
+	KeyOnly bool `json:"key_only,omitempty"`
 }
 
 type c06BasicCfg struct {
 	Users []c06User `json:"users"`
+	// Prefix: "" = etcdPrefix "c06-users/", "slash" = "/c06-users/", "default" = option omitted (documented default credentials/)
+	Prefix string `json:"prefix,omitempty"`
+	// Junk: malformed entries stored under the same prefix (no password / not YAML)
+	Junk int `json:"junk,omitempty"`
+	// InitFail: fault - the store cannot be read while generation InitFail-1 is created (0: never)
+	InitFail int `json:"init_fail,omitempty"`
 }
 
 type c06Cfg struct {
-	Rules    []c06Rule    `json:"rules"`
-	JWT      *c06JWTCfg   `json:"jwt,omitempty"`
-	Sig      *c06SigCfg   `json:"sig,omitempty"`
-	Basic    *c06BasicCfg `json:"basic,omitempty"`
-	SrvMax   int64        `json:"srv_max"`
-	Seg      int          `json:"seg"`
-	DelayUs  int          `json:"delay_us"`
-	OffsetUs int64        `json:"offset_us"`
+	Rules  []c06Rule    `json:"rules"`
+	JWT    *c06JWTCfg   `json:"jwt,omitempty"`
+	Sig    *c06SigCfg   `json:"sig,omitempty"`
+	Basic  *c06BasicCfg `json:"basic,omitempty"`
+	SrvMax int64        `json:"srv_max"`
+	// Rewrite: the server's first path rule is {pathRegexp: ^/api/(.*)$, rewriteTarget: /$1}
+	Rewrite  bool  `json:"rewrite,omitempty"`
+	Seg      int   `json:"seg"`
+	DelayUs  int   `json:"delay_us"`
+	OffsetUs int64 `json:"offset_us"`
 }
 
 // c06KV is one header line (an object, so that the minimiser removes whole lines).
@@ -134,6 +172,27 @@ type c06Op struct {
 	Chunked bool        `json:"chunked"`
 	ChunkSz int         `json:"chunk_sz"`
 	SkewMs  int64       `json:"skew_ms"`
+
+	// QStyle: how the query is written on the wire: "" every reserved byte as
+	// %XY (upper-case), "lower" lower-case hex digits, "min" only what HTTP/URL
+	// syntax requires, "plus" a space as '+'. QBare: parameters with an empty
+	// value are written without '='.
+	QStyle string `json:"q_style,omitempty"`
+	QBare  bool   `json:"q_bare,omitempty"`
+	// SignCL: Content-Length (if the request has one) is among the signed headers;
+	// AuthFmt "nospace": the Authorization parameters are separated by ',' only
+	SignCL  bool   `json:"sign_cl,omitempty"`
+	AuthFmt string `json:"auth_fmt,omitempty"`
+	// Expect: the request announces its body with Expect: 100-continue
+	Expect bool `json:"expect,omitempty"`
+	// CookiePos: where the token cookie stands in the Cookie header: "" middle, only, first, last
+	CookiePos string `json:"cookie_pos,omitempty"`
+	// OtherCookies: a bearer-token request also carries cookies, none of them the token cookie
+	OtherCookies bool `json:"other_cookies,omitempty"`
+	// JWTExtra: registered claims iss/aud/jti/sub and a kid header member are present
+	JWTExtra bool `json:"jwt_extra,omitempty"`
+	// LitDocPrefix (config without signingKeyPrefix): the client derives the key with the documented default "ME" instead of ""
+	LitDocPrefix bool `json:"lit_doc_prefix,omitempty"`
 
 	JWTMode   string `json:"jwt_mode"` // "", cookie, bearer
 	JWTAlg    string `json:"jwt_alg"`
@@ -220,8 +279,11 @@ func c06GenCfg(rng *sim.Rand) c06Cfg {
 	switch {
 	case combo < 20:
 		jwt = true
-	case combo < 50:
+	case combo < 48:
 		sig = true
+	case combo < 50:
+		// presigned URL (query) + Basic credentials (Authorization header)
+		sig, basic = true, true
 	case combo < 65:
 		basic = true
 	case combo < 70:
@@ -242,6 +304,10 @@ func c06GenCfg(rng *sim.Rand) c06Cfg {
 	if hdr {
 		n := rng.Range(1, 2)
 		names := []string{"X-Rule-A", "Is-Valid"}
+		if rng.Bool(0.3) {
+			// header names are case-insensitive: the operator may write them in any case
+			names = []string{rng.PickStr("x-rule-a", "X-RULE-A", "x-Rule-a"), rng.PickStr("is-valid", "x-api-key", "IS-VALID")}
+		}
 		for i := 0; i < n; i++ {
 			ru := c06Rule{Name: names[i]}
 			switch rng.Intn(3) {
@@ -253,6 +319,10 @@ func c06GenCfg(rng *sim.Rand) c06Cfg {
 				ru.Values = []string{"abc", "goodplan"}
 				ru.Regexp = "^ok-[a-z0-9]+$"
 			}
+			if len(ru.Values) > 0 && rng.Bool(0.2) {
+				// the empty value is an allowed value ("It allows empty value")
+				ru.Values = append(ru.Values, "")
+			}
 			cfg.Rules = append(cfg.Rules, ru)
 		}
 	}
@@ -261,6 +331,10 @@ func c06GenCfg(rng *sim.Rand) c06Cfg {
 		if forceCookie || rng.Bool(0.5) {
 			j.Cookie = rng.PickStr("auth", "jwt-token", "T")
 		}
+		if rng.Bool(0.25) {
+			// hex digits may be written in either case
+			j.Secret = strings.ToUpper(j.Secret)
+		}
 		cfg.JWT = j
 	}
 	if sig {
@@ -268,14 +342,30 @@ func c06GenCfg(rng *sim.Rand) c06Cfg {
 		for i, n := 0, rng.Range(1, 3); i < n; i++ {
 			s.Keys = append(s.Keys, [2]string{fmt.Sprintf("AKID%d%s", i, c06RandStr(rng, rng.Range(0, 6), c06Alnum)), c06RandStr(rng, rng.Pick(1, 8, 20, 40), c06Alnum+"+/=-_")})
 		}
-		s.TTLs = int64(rng.Pick(0, 0, 1, 5, 60, 300, 900))
+		s.TTLs = int64(rng.Pick(0, 0, 1, 5, 60, 300, 900, 90))
+		if s.TTLs > 0 && rng.Bool(0.25) {
+			s.TTLFracMs = int64(rng.Pick(500, 250, 1, 999))
+		}
+		if rng.Bool(0.3) {
+			s.TTLForm = "go"
+		}
 		s.ExcludeBody = rng.Bool(0.12)
 		s.Aws = rng.Bool(0.3)
+		if s.Aws && rng.Bool(0.1) {
+			s.NoPrefix = true
+		}
+		if rng.Bool(0.15) {
+			s.Cred = [2]string{"AKIDCRED" + c06RandStr(rng, 3, c06Alnum), c06RandStr(rng, rng.Pick(8, 20), c06Alnum)}
+			if rng.Bool(0.1) && c06GenNoKeyMap {
+				s.NoMap = true
+			}
+		}
+		s.SignOpts = rng.Bool(0.2)
 		cfg.Sig = s
 	}
 	if basic {
 		b := &c06BasicCfg{}
-		names := []string{"user", "Alice", "jürgen", "用户", "a.b-c_d", "bob@example.com", "u5"}
+		names := []string{"user", "Alice", "jürgen", "用户", "a.b-c_d", "bob@example.com", "u5", "John Doe"}
 		perm := rng.Perm(len(names))
 		for i, n := 0, rng.Range(1, 4); i < n; i++ {
 			u := c06User{Name: names[perm[i]], Store: "sha"}
@@ -296,25 +386,55 @@ func c06GenCfg(rng *sim.Rand) c06Cfg {
 			}
 			if rng.Bool(0.25) && strings.Trim(u.Pass, c06Alnum) == "" {
 				u.Store = "plain"
+			} else {
+				u.Store = c06PickStore(rng, u.Pass)
 			}
+			u.KeyOnly = rng.Bool(0.2)
 			b.Users = append(b.Users, u)
+		}
+		b.Prefix = rng.PickStr("", "", "", "slash", "default")
+		b.Junk = rng.Pick(0, 0, 0, 1, 2)
+		if rng.Bool(0.06) {
+			b.InitFail = rng.Pick(1, 1, 2)
 		}
 		cfg.Basic = b
 	}
 	if rng.Bool(0.04) {
 		cfg.SrvMax = -1
 	}
+	cfg.Rewrite = rng.Bool(0.1)
 	cfg.Seg = rng.Pick(0, 0, 0, 1, 7, 100, 1460)
 	cfg.DelayUs = rng.Pick(0, 0, 0, 0, 1, 50, 1000)
 	cfg.OffsetUs = int64(rng.Pick(0, 0, 1, 300000, 999999, rng.Intn(1000000)))
 	return cfg
 }
 
+// c06PickStore draws the htpasswd scheme a password is stored with: the
+// schemes htpasswd(1) can write ({SHA} -s, apr1 -m (its default for years),
+// bcrypt -B) and the salted {SSHA} of LDAP exports.
+func c06PickStore(rng *sim.Rand, pass string) string {
+	st := rng.PickStr("sha", "sha", "sha", "apr1", "apr1", "ssha", "bcrypt")
+	if st == "bcrypt" && len(pass) > 72 {
+		// bcrypt itself only looks at the first 72 bytes
+		st = "apr1"
+	}
+	return st
+}
+
 var c06Paths = []string{"/", "/a", "/a/b", "/api/v1/items", "/a%20b", "/caf%C3%A9", "/x%2Fy", "/a+b", "/a=b", "/a:b@c", "/~user/-_.", "/%E4%BD%A0%E5%A5%BD",
 	"/a!b", "/a*b", "/a(b)", "/a%25b", "/a,b", "/a$b", "/a;p=1", "/a&b", "/A/B/c.json", "/trailing/"}
 
-var c06QVals = []string{"1", "2", "10", "", "x/y", "v&w", "v=w", "é", "~-._", "a+b", "UPPER", "%", "café", "a,b", "q?r", "#frag", "@", "[]"}
-var c06QKeys = []string{"a", "b", "q", "k", "name", "z", "A", "id", "x-y", "p_1"}
+var c06QVals = []string{"1", "2", "10", "", "x/y", "v&w", "v=w", "é", "~-._", "a+b", "UPPER", "%", "café", "a,b", "q?r", "#frag", "@", "[]",
+	"hello world", "a b c", " x", "", "2020-01-01T00:00:00Z", "a:b", "50%25", "{\"k\":1}", "it's", "*"}
+var c06QKeys = []string{"a", "b", "q", "k", "name", "z", "A", "id", "x-y", "p_1", "filter[name]", "user.id", "ids[]", "ключ", "a/b", "Z", "q"}
+
+// Switches for the two generator ranges in which the unchanged tree violates
+// the statement (see the header comment): they stay generated; set to false
+// only to look at everything else while those findings are open.
+const (
+	c06GenQuerySpaces = false
+	c06GenNoKeyMap    = false
+)
 
 func c06GenQuery(rng *sim.Rand) [][2]string {
 	var q [][2]string
@@ -324,7 +444,11 @@ func c06GenQuery(rng *sim.Rand) [][2]string {
 		if i > 0 && rng.Bool(0.35) {
 			k = q[rng.Intn(len(q))][0] // multi-valued parameter
 		}
-		q = append(q, [2]string{k, c06QVals[rng.Intn(len(c06QVals))]})
+		v := c06QVals[rng.Intn(len(c06QVals))]
+		if !c06GenQuerySpaces && strings.Contains(v, " ") {
+			v = strings.ReplaceAll(v, " ", "_")
+		}
+		q = append(q, [2]string{k, v})
 	}
 	if c06CanonQuery(q) != c06CanonQueryRawOrder(q) {
 		// the two defensible sort orders differ: keep an unambiguous query
@@ -352,16 +476,18 @@ func c06GenOp(rng *sim.Rand, cfg *c06Cfg) c06Op {
 	op := c06Op{}
 	op.GapUs = int64(rng.Pick(0, 0, 1, 1000, 100000, 2000000))
 	op.NewConn = rng.Bool(0.2)
-	op.Method = rng.PickStr("GET", "GET", "POST", "PUT", "DELETE", "PATCH", "OPTIONS")
+	op.Method = rng.PickStr("GET", "GET", "POST", "PUT", "DELETE", "PATCH", "OPTIONS", "HEAD")
 	op.Path = c06Paths[rng.Intn(len(c06Paths))]
-	op.Host = rng.PickStr("front.example:10080", "front.example:10080", "api.example", "API.Example:80", "10.0.0.5:10080")
+	op.Host = rng.PickStr("front.example:10080", "front.example:10080", "api.example", "API.Example:80", "10.0.0.5:10080", "front.example:10080", "[2001:db8::1]:10080", "[::1]", "api.example:443")
 	op.Query = c06GenQuery(rng)
+	op.QStyle = rng.PickStr("", "", "", "lower", "min", "plus")
+	op.QBare = rng.Bool(0.25)
 	for _, kv := range c06ExtraHdr {
 		if rng.Bool(0.3) {
 			op.Hdr = append(op.Hdr, c06KV{kv[0], kv[1]})
 		}
 	}
-	if op.Method != "GET" && op.Method != "DELETE" && op.Method != "OPTIONS" || rng.Bool(0.1) {
+	if op.Method != "GET" && op.Method != "DELETE" && op.Method != "OPTIONS" && op.Method != "HEAD" || rng.Bool(0.1) {
 		op.BodyLen = rng.Pick(0, 1, 2, 10, 100, 1000, 5000, rng.Intn(20000), rng.Intn(65536))
 		op.BodyBin = rng.Bool(0.4)
 		op.Chunked = rng.Bool(0.3)
@@ -369,6 +495,8 @@ func c06GenOp(rng *sim.Rand, cfg *c06Cfg) c06Op {
 		if op.BodyLen > 3000 && op.ChunkSz < 100 {
 			op.ChunkSz = 4096
 		}
+		// curl announces bodies above 1 KiB this way
+		op.Expect = op.BodyLen > 0 && rng.Bool(0.15)
 	}
 	if rng.Bool(0.55) {
 		op.SkewMs = int64(rng.Pick(1, -1, 500, -500, 1000, -1000, 2000, -2000, 5000, -5000, 60000, -60000, 3600000, -3600000))
@@ -400,17 +528,38 @@ func c06GenOp(rng *sim.Rand, cfg *c06Cfg) c06Op {
 		if rng.Bool(0.4) {
 			op.HasIat, op.IatIn = true, int64(rng.Pick(0, -1, -60))
 		}
-		defects = append(defects, "jwt-missing", "jwt-alg", "jwt-alg", "jwt-secret", "jwt-none", "jwt-sig-byte", "jwt-payload-byte", "jwt-expired", "jwt-notyet")
+		op.CookiePos = rng.PickStr("", "", "only", "first", "last")
+		op.OtherCookies = rng.Bool(0.4)
+		op.JWTExtra = rng.Bool(0.3)
+		defects = append(defects, "jwt-missing", "jwt-alg", "jwt-alg", "jwt-secret", "jwt-none", "jwt-sig-byte", "jwt-payload-byte", "jwt-expired", "jwt-notyet", "jwt-alg-foreign", "jwt-bearer-lower")
 	}
 	if s := cfg.Sig; s != nil && len(s.Keys) > 0 {
 		op.SigMode = "header"
-		if rng.Bool(0.3) {
+		if rng.Bool(0.3) || cfg.Basic != nil {
 			op.SigMode = "presign"
-			op.ExpiresS = int64(rng.Pick(1, 5, 60, 900, 86400))
+			op.ExpiresS = int64(rng.Pick(1, 5, 60, 900, 86400, 604800))
 			targets = append(targets, "presign")
+			// the signature parameters join the query: it must stay one whose two
+			// defensible sort orders (by raw or by URI-encoded name) coincide
+			all := append([][2]string(nil), op.Query...)
+			for _, l := range []c06Literal{c06LitDefault, c06LitAws} {
+				all = append(all, [2]string{l.AlgorithmName, ""}, [2]string{l.Credential, ""}, [2]string{l.Date, ""}, [2]string{l.Expires, ""}, [2]string{l.SignedHeaders, ""})
+			}
+			if c06CanonQuery(all) != c06CanonQueryRawOrder(all) {
+				op.Query = [][2]string{{"a", "1"}, {"a", "2"}, {"b", ""}}
+			}
 		}
 		k := s.Keys[rng.Intn(len(s.Keys))]
 		op.SigKey, op.SigSecret = k[0], k[1]
+		if s.Cred[0] != "" && rng.Bool(0.2) {
+			// signed with the accessKeyId/accessKeySecret pair of the spec
+			op.SigKey, op.SigSecret = s.Cred[0], s.Cred[1]
+		}
+		op.SignCL = rng.Bool(0.35)
+		if rng.Bool(0.25) {
+			op.AuthFmt = "nospace"
+		}
+		op.LitDocPrefix = s.NoPrefix && rng.Bool(0.5)
 		switch rng.Intn(4) {
 		case 0:
 			op.Scopes = []string{"us-east-1", "svc"}
@@ -447,7 +596,7 @@ func c06GenOp(rng *sim.Rand, cfg *c06Cfg) c06Op {
 		}
 		defects = append(defects, "sig-missing", "sig-unknown-key", "sig-wrong-secret", "sig-method", "sig-path", "sig-path", "sig-query-val", "sig-query-add", "sig-query-drop",
 			"sig-hdr-val", "sig-hdr-val", "sig-hdr-extra", "sig-hdr-drop", "sig-host", "sig-signature", "sig-date", "sig-scope", "sig-keyid",
-			"sig-body-flip", "sig-body-flip", "sig-body-append", "sig-body-append", "sig-body-trunc", "sig-unsigned-hdr")
+			"sig-body-flip", "sig-body-flip", "sig-body-append", "sig-body-append", "sig-body-trunc", "sig-unsigned-hdr", "sig-unsigned-payload")
 		if op.SigMode == "presign" {
 			defects = append(defects, "sig-expires", "presign-expired")
 		}
@@ -462,7 +611,8 @@ func c06GenOp(rng *sim.Rand, cfg *c06Cfg) c06Op {
 	if b := cfg.Basic; b != nil && len(b.Users) > 0 {
 		u := b.Users[rng.Intn(len(b.Users))]
 		op.BasicOn, op.BasicUser, op.BasicPass = true, u.Name, u.Pass
-		defects = append(defects, "basic-missing", "basic-pass-byte", "basic-pass-byte", "basic-colon-suffix", "basic-scheme", "basic-unknown-user", "basic-user-case", "basic-pass-prefix")
+		defects = append(defects, "basic-missing", "basic-pass-byte", "basic-pass-byte", "basic-colon-suffix", "basic-scheme", "basic-unknown-user", "basic-user-case", "basic-pass-prefix",
+			"basic-not-base64", "basic-no-colon", "basic-empty-pass", "basic-lower-scheme", "basic-unpadded", "basic-decoy-user", "basic-hash-as-password")
 	}
 
 	// a token meant to be valid must not be issued "in the future" beyond its own window
@@ -508,7 +658,7 @@ func c06GenOp(rng *sim.Rand, cfg *c06Cfg) c06Op {
 			}
 		case "jwt-secret":
 			op.JWTSecret = c06RandHex(rng, rng.Pick(1, 16, len(cfg.JWT.Secret)/2))
-			if len(cfg.JWT.Secret) >= 2 && op.JWTSecret[:2] == cfg.JWT.Secret[:2] {
+			if len(cfg.JWT.Secret) >= 2 && strings.EqualFold(op.JWTSecret[:2], cfg.JWT.Secret[:2]) {
 				// never an HMAC-equivalent key (zero padding makes "2f" and "2f00" the same key)
 				b, _ := hex.DecodeString(op.JWTSecret[:2])
 				op.JWTSecret = hex.EncodeToString([]byte{b[0] ^ 0xff}) + op.JWTSecret[2:]
@@ -566,6 +716,9 @@ func c06GenOp(rng *sim.Rand, cfg *c06Cfg) c06Op {
 			op.BasicUser = sw
 		case "basic-scheme":
 			op.BasicForm = "scheme"
+		case "basic-decoy-user":
+			// a user that exists in the store, but under another prefix
+			op.BasicUser, op.BasicPass = c06Decoy.Name, c06Decoy.Pass
 		case "basic-pass-prefix":
 			// a proper prefix of the password
 			if len(op.BasicPass) > 1 {
@@ -695,6 +848,9 @@ func c06ApplyEdit(cfg c06Cfg, ev *c06Event) c06Cfg {
 				n = 0
 			}
 			sg.TTLs = []int64{0, 1, 5, 60, 300, 900}[n%6]
+			if n%4 == 3 {
+				sg.TTLFracMs = 0
+			}
 			out.Sig = &sg
 		}
 	}
@@ -750,7 +906,7 @@ func c06GenEvents(rng *sim.Rand, sc *c06Scenario) {
 			ev.Secret = c06RandStr(rng, rng.Pick(8, 20, 40), c06Alnum+"+/=-_")
 		case "jwt-secret":
 			ev.Secret = c06RandHex(rng, rng.Pick(8, 16, 32))
-			if len(cfg.JWT.Secret) >= 2 && ev.Secret[:2] == cfg.JWT.Secret[:2] {
+			if len(cfg.JWT.Secret) >= 2 && strings.EqualFold(ev.Secret[:2], cfg.JWT.Secret[:2]) {
 				b, _ := hex.DecodeString(ev.Secret[:2])
 				ev.Secret = hex.EncodeToString([]byte{b[0] ^ 0xff}) + ev.Secret[2:]
 			}
@@ -772,10 +928,12 @@ func c06GenEvents(rng *sim.Rand, sc *c06Scenario) {
 		switch ev.Op {
 		case "add":
 			added++
-			ev.User = c06User{Name: fmt.Sprintf("newuser%d", added), Pass: c06RandStr(rng, rng.Range(3, 12), c06Alnum), Store: "sha"}
+			ev.User = c06User{Name: fmt.Sprintf("newuser%d", added), Pass: c06RandStr(rng, rng.Range(3, 12), c06Alnum), Store: "sha", KeyOnly: rng.Bool(0.2)}
+			ev.User.Store = c06PickStore(rng, ev.User.Pass)
 		case "replace":
 			u := users[rng.Intn(len(users))]
 			ev.User = c06User{Name: u.Name, Pass: u.Pass + c06RandStr(rng, rng.Range(1, 4), c06Alnum), Store: "sha"}
+			ev.User.Store = c06PickStore(rng, ev.User.Pass)
 		case "remove":
 			ev.User = c06User{Name: users[rng.Intn(len(users))].Name}
 		}
@@ -848,15 +1006,17 @@ func c06Body(tag string, n int, bin bool) []byte {
 
 // c06Info is what the oracle needs to know about one issued request.
 type c06Info struct {
-	mut       string // the mutation that was really applied ("" if not applicable)
-	exp, nbf  int64  // unix seconds (valid if the op has them)
-	iat       int64
-	sigDate   int64 // unix seconds of the signature's date
-	signedLen int   // length of the body the signature was computed over
-	sentBody  []byte
-	wire      *c06Wire
-	issuedAt  time.Time
-	eff       c06Op // the request as really issued (secrets/password followed to the configuration in force)
+	mut          string // the mutation that was really applied ("" if not applicable)
+	exp, nbf     int64  // unix seconds (valid if the op has them)
+	iat          int64
+	sigDate      int64 // unix seconds of the signature's date
+	signedLen    int   // length of the body the signature was computed over
+	signedCL     bool  // Content-Length was among the signed headers
+	otherCookies bool  // cookies present, the token cookie not among them, token in the Authorization header
+	sentBody     []byte
+	wire         *c06Wire
+	issuedAt     time.Time
+	eff          c06Op // the request as really issued (secrets/password followed to the configuration in force)
 }
 
 func c06FlipB64(seg string, n int) string {
@@ -943,10 +1103,13 @@ func (c *c06Chain) issue(id string, op0 *c06Op) *c06Info {
 		}
 	}
 	for _, kv := range op.Query {
-		w.query = append(w.query, c06UriEncode(kv[0], false)+"="+c06UriEncode(kv[1], false))
+		w.query = append(w.query, c06WireQueryItem(kv[0], kv[1], op.QStyle, op.QBare))
 	}
 	w.body = c06Body(id, op.BodyLen, op.BodyBin)
 	info.signedLen = len(w.body)
+	if op.Expect && len(w.body) > 0 {
+		w.hdr = append(w.hdr, [2]string{"Expect", "100-continue"})
+	}
 
 	// JWT
 	if op.JWTMode != "" && cfg.JWT != nil {
@@ -965,12 +1128,22 @@ func (c *c06Chain) issue(id string, op0 *c06Op) *c06Info {
 			info.exp = is + op.ExpIn
 			claims = append(claims, [2]string{"exp", fmt.Sprint(info.exp)})
 		}
-		alg := op.JWTAlg
+		alg, signAlg, extraHead := op.JWTAlg, op.JWTAlg, ""
 		if op.Mut == "jwt-none" {
-			alg = "none"
+			alg, signAlg = "none", "none"
 			info.mut = op.Mut
 		}
-		tok := c06JWT(alg, sec, claims)
+		if op.Mut == "jwt-alg-foreign" {
+			// a header naming an algorithm outside the configured family, the
+			// signature still being the HMAC with the right secret
+			alg = []string{"RS256", "ES256", "PS256", "hs256", "HS999", "EdDSA", "HS256 "}[op.MutN%7]
+			info.mut = op.Mut
+		}
+		if op.JWTExtra {
+			claims = append(claims, [2]string{"iss", `"https://issuer.example/"`}, [2]string{"aud", `["c06","other"]`}, [2]string{"jti", fmt.Sprintf("%q", id)}, [2]string{"scope", `"read write"`})
+			extraHead = `,"kid":"key-1"`
+		}
+		tok := c06JWTx(alg, signAlg, extraHead, sec, claims)
 		parts := strings.Split(tok, ".")
 		switch op.Mut {
 		case "jwt-sig-byte":
@@ -986,9 +1159,28 @@ func (c *c06Chain) issue(id string, op0 *c06Op) *c06Info {
 		}
 		tok = strings.Join(parts, ".")
 		if op.JWTMode == "cookie" && cfg.JWT != nil && cfg.JWT.Cookie != "" {
-			w.hdr = append(w.hdr, [2]string{"Cookie", "pref=1; " + cfg.JWT.Cookie + "=" + tok + "; z=9"})
+			ck := cfg.JWT.Cookie + "=" + tok
+			switch op.CookiePos {
+			case "only":
+			case "first":
+				ck = ck + "; pref=1; z=9"
+			case "last":
+				ck = "pref=1; z=9; " + ck
+			default:
+				ck = "pref=1; " + ck + "; z=9"
+			}
+			w.hdr = append(w.hdr, [2]string{"Cookie", ck})
 		} else {
-			w.hdr = append(w.hdr, [2]string{"Authorization", "Bearer " + tok})
+			scheme := "Bearer "
+			if op.Mut == "jwt-bearer-lower" {
+				scheme = []string{"bearer ", "BEARER ", "Bearer  "}[op.MutN%3]
+				info.mut = op.Mut
+			}
+			w.hdr = append(w.hdr, [2]string{"Authorization", scheme + tok})
+			if op.OtherCookies && cfg.JWT.Cookie != "" {
+				w.hdr = append(w.hdr, [2]string{"Cookie", "pref=1; " + cfg.JWT.Cookie + "x=1; z=9"})
+				info.otherCookies = true
+			}
 		}
 	}
 
@@ -1013,8 +1205,37 @@ func (c *c06Chain) issue(id string, op0 *c06Op) *c06Info {
 		case "basic-colon-suffix":
 			pass += rng06Suffix(op.MutN)
 			info.mut = op.Mut
+		case "basic-empty-pass":
+			pass = ""
+			info.mut = op.Mut
+		case "basic-hash-as-password":
+			// what is stored for the user is presented as the password
+			for _, u := range c.users {
+				if u.Name == user && u.Store != "plain" && u.Store != "" {
+					pass = c06Stored(u)
+					info.mut = op.Mut
+				}
+			}
 		}
 		v := c06Basic(user, pass)
+		switch op.Mut {
+		case "basic-not-base64":
+			v = "Basic " + []string{"!!!not-base64!!!", "dXNlcjpwYXNz*", "=", "dXNlcg"}[op.MutN%4]
+			info.mut = op.Mut
+		case "basic-no-colon":
+			if !strings.Contains(user+pass, ":") {
+				v = "Basic " + base64.StdEncoding.EncodeToString([]byte(user+pass))
+				info.mut = op.Mut
+			}
+		case "basic-lower-scheme":
+			v = []string{"basic ", "BASIC ", "Basic  "}[op.MutN%3] + strings.TrimPrefix(v, "Basic ")
+			info.mut = op.Mut
+		case "basic-unpadded":
+			if strings.HasSuffix(v, "=") {
+				v = strings.TrimRight(v, "=")
+				info.mut = op.Mut
+			}
+		}
 		if op.BasicForm == "scheme" {
 			v = "Basik " + strings.TrimPrefix(v, "Basic ")
 		}
@@ -1026,12 +1247,23 @@ func (c *c06Chain) issue(id string, op0 *c06Op) *c06Info {
 		lit := c06LitDefault
 		if cfg.Sig.Aws {
 			lit = c06LitAws
+			if cfg.Sig.NoPrefix {
+				// the spec does not say which prefix: none, or the documented default
+				lit.KeyPrefix = ""
+				if op.LitDocPrefix {
+					lit.KeyPrefix = c06LitDefault.KeyPrefix
+				}
+			}
 		}
 		at := issuer.Truncate(time.Second)
 		info.sigDate = at.Unix()
 		payload := c06Sha256Hex(w.body)
 		if cfg.Sig.ExcludeBody {
 			payload = "UNSIGNED-PAYLOAD"
+		} else if op.Mut == "sig-unsigned-payload" {
+			// the client decides on its own not to cover the body
+			payload = "UNSIGNED-PAYLOAD"
+			info.mut = op.Mut
 		}
 		if op.SendSha {
 			w.hdr = append(w.hdr, [2]string{lit.ContentSHA256, payload})
@@ -1053,8 +1285,19 @@ func (c *c06Chain) issue(id string, op0 *c06Op) *c06Info {
 			in.signed = append(in.signed, strings.ToLower(lit.ContentSHA256))
 		}
 		in.query = append([][2]string(nil), op.Query...)
+		// Content-Length is written by the encoder; a client that signs every
+		// header it sends (most SDKs) covers it as well
+		var clLine [][2]string
+		if op.SignCL && w.hasContentLength() {
+			clLine = [][2]string{{"Content-Length", fmt.Sprint(len(w.body))}}
+			in.signed = append(in.signed, "content-length")
+		}
+		sep := ", "
+		if op.AuthFmt == "nospace" {
+			sep = ","
+		}
 		if op.SigMode == "presign" {
-			in.lines = w.hdr
+			in.lines = append(append([][2]string(nil), w.hdr...), clLine...)
 			_, list := c06CanonHeaders(in.lines, in.signed)
 			auth := [][2]string{{lit.AlgorithmName, lit.AlgorithmValue}, {lit.Credential, op.SigKey + "/" + in.scope()},
 				{lit.Date, at.UTC().Format("20060102T150405Z")}, {lit.Expires, fmt.Sprint(op.ExpiresS)}, {lit.SignedHeaders, list}}
@@ -1067,11 +1310,12 @@ func (c *c06Chain) issue(id string, op0 *c06Op) *c06Info {
 		} else {
 			w.hdr = append(w.hdr, [2]string{lit.Date, at.UTC().Format("20060102T150405Z")})
 			in.signed = append(in.signed, strings.ToLower(lit.Date))
-			in.lines = w.hdr
+			in.lines = append(append([][2]string(nil), w.hdr...), clLine...)
 			sig, list := in.sign()
-			w.hdr = append(w.hdr, [2]string{"Authorization", fmt.Sprintf("%s Credential=%s/%s, SignedHeaders=%s, Signature=%s", lit.AlgorithmValue, op.SigKey, in.scope(), list, sig)})
+			w.hdr = append(w.hdr, [2]string{"Authorization", fmt.Sprintf("%s Credential=%s/%s%sSignedHeaders=%s%sSignature=%s", lit.AlgorithmValue, op.SigKey, in.scope(), sep, list, sep, sig)})
 		}
-		if strings.HasPrefix(op.Mut, "sig-") {
+		info.signedCL = len(clLine) > 0
+		if strings.HasPrefix(op.Mut, "sig-") && op.Mut != "sig-unsigned-payload" {
 			if c.mutateSigned(w, op, lit, in.signed) {
 				info.mut = op.Mut
 			}
@@ -1081,6 +1325,45 @@ func (c *c06Chain) issue(id string, op0 *c06Op) *c06Info {
 	info.wire = w
 	info.eff = eff
 	return info
+}
+
+// c06WireQueryItem writes one query parameter the way a client of the given
+// style does; all styles decode to the same name and value.
+func c06WireQueryItem(k, v, style string, bare bool) string {
+	enc := func(x string) string {
+		switch style {
+		case "lower":
+			e := c06UriEncode(x, false)
+			var b strings.Builder
+			for i := 0; i < len(e); i++ {
+				if e[i] == '%' && i+2 < len(e) {
+					b.WriteString(strings.ToLower(e[i : i+3]))
+					i += 2
+				} else {
+					b.WriteByte(e[i])
+				}
+			}
+			return b.String()
+		case "plus":
+			return strings.ReplaceAll(c06UriEncode(x, false), "%20", "+")
+		case "min":
+			var b strings.Builder
+			for i := 0; i < len(x); i++ {
+				c := x[i]
+				if c06Unreserved(c) || strings.IndexByte("/:@,?!$'()*[]", c) >= 0 {
+					b.WriteByte(c)
+				} else {
+					b.WriteString(c06UriEncode(string([]byte{c}), false))
+				}
+			}
+			return b.String()
+		}
+		return c06UriEncode(x, false)
+	}
+	if bare && v == "" && k != "" {
+		return enc(k)
+	}
+	return enc(k) + "=" + enc(v)
 }
 
 func rng06Suffix(n int) string {
@@ -1105,7 +1388,7 @@ func (c *c06Chain) mutateSigned(w *c06Wire, op *c06Op, lit c06Literal, signed []
 	}
 	var signedExtra []string // signed headers other than host, date, content hash
 	for _, n := range signed {
-		if n != "host" && n != strings.ToLower(lit.Date) && n != strings.ToLower(lit.ContentSHA256) {
+		if n != "host" && n != strings.ToLower(lit.Date) && n != strings.ToLower(lit.ContentSHA256) && n != "content-length" {
 			signedExtra = append(signedExtra, n)
 		}
 	}
@@ -1291,6 +1574,9 @@ func (c *c06Chain) mutateSigned(w *c06Wire, op *c06Op, lit c06Literal, signed []
 		}
 		a := strings.Index(v, "Credential=")
 		b := strings.Index(v, ", SignedHeaders=")
+		if b < 0 {
+			b = strings.Index(v, ",SignedHeaders=")
+		}
 		if a < 0 || b < a {
 			return false
 		}
@@ -1419,7 +1705,7 @@ func (c *c06Chain) judgeJWT(op *c06Op, info *c06Info, a, b int64) c06Judgement {
 	switch {
 	case op.JWTMode == "":
 		return c06Judgement{c06Reject, "jwt-missing"}
-	case info.mut == "jwt-none" || info.mut == "jwt-sig-byte" || info.mut == "jwt-payload-byte":
+	case info.mut == "jwt-none" || info.mut == "jwt-sig-byte" || info.mut == "jwt-payload-byte" || info.mut == "jwt-alg-foreign":
 		return c06Judgement{c06Reject, info.mut}
 	case op.JWTAlg != cfg.Alg:
 		return c06Judgement{c06Reject, "jwt-alg-not-pinned"}
@@ -1438,7 +1724,12 @@ func (c *c06Chain) judgeJWT(op *c06Op, info *c06Info, a, b int64) c06Judgement {
 	if op.HasIat {
 		w.sureFrom = max64(w.sureFrom, info.iat*c06S)
 	}
-	return w.judge(a, b, "jwt")
+	j := w.judge(a, b, "jwt")
+	if j.v == c06Accept && info.mut == "jwt-bearer-lower" {
+		// RFC 7235: the scheme is case-insensitive and followed by one or more spaces
+		return c06Judgement{c06Either, info.mut}
+	}
+	return j
 }
 
 var c06SigMuts = map[string]bool{"sig-method": true, "sig-path": true, "sig-query-val": true, "sig-query-add": true, "sig-query-drop": true, "sig-hdr-val": true,
@@ -1450,14 +1741,21 @@ func (c *c06Chain) judgeSig(op *c06Op, info *c06Info, a, b int64) c06Judgement {
 	if op.SigMode == "" {
 		return c06Judgement{c06Reject, "sig-missing"}
 	}
-	known := false
-	for _, k := range cfg.Keys {
-		if k[0] == op.SigKey {
-			known = true
-			if k[1] != op.SigSecret {
-				return c06Judgement{c06Reject, "sig-wrong-secret"}
+	known, silent := false, ""
+	if !(cfg.NoMap && cfg.Cred[0] != "") {
+		for _, k := range cfg.Keys {
+			if k[0] == op.SigKey {
+				known = true
+				if k[1] != op.SigSecret {
+					return c06Judgement{c06Reject, "sig-wrong-secret"}
+				}
 			}
 		}
+	}
+	if !known && cfg.Cred[0] != "" && op.SigKey == cfg.Cred[0] && op.SigSecret == cfg.Cred[1] {
+		// the statement does not say whether accessKeyId/accessKeySecret ("used to
+		// set credential") is a known access key of the verifier
+		known, silent = true, "sig-spec-credential-pair"
 	}
 	if !known {
 		return c06Judgement{c06Reject, "sig-unknown-key"}
@@ -1468,10 +1766,34 @@ func (c *c06Chain) judgeSig(op *c06Op, info *c06Info, a, b int64) c06Judgement {
 	if c06BodyMuts[info.mut] && !cfg.ExcludeBody {
 		return c06Judgement{c06Reject, info.mut}
 	}
+	if c06BodyMuts[info.mut] && info.signedCL && len(info.sentBody) != info.signedLen {
+		// the body is not covered, but its length is a signed header
+		return c06Judgement{c06Reject, "sig-content-length"}
+	}
+	if info.mut == "sig-unsigned-payload" {
+		if len(info.sentBody) > 0 {
+			return c06Judgement{c06Reject, info.mut}
+		}
+		silent = "sig-unsigned-empty-payload"
+	}
+	if cfg.Aws && cfg.NoPrefix {
+		// literal without signingKeyPrefix: the reference says "default is ME", the
+		// schema says optional; neither the empty nor the default prefix is asserted
+		silent = "sig-literal-without-key-prefix"
+	}
+	if c.jcfg.Rewrite && c06RewriteRe.MatchString(c06DecodedPath(info.wire.path)) {
+		// the server rewrites the path before the pipeline runs: the statement
+		// names "the path" without saying whether it is the one sent or the one forwarded
+		silent = "sig-path-rewritten-by-server-rule"
+	}
+	if c.jcfg.Basic != nil && op.BasicOn {
+		// a presigned URL together with an Authorization header of another scheme:
+		// Signature V4 services answer such a request either way
+		silent = "sig-presigned-with-authorization-header"
+	}
 	w := c06Open()
 	d := info.sigDate * c06S
-	if cfg.TTLs > 0 {
-		t := cfg.TTLs * c06S
+	if t := cfg.ttlNs(); t > 0 {
 		w.sureFrom, w.sureTo = d-t+1, d+t-1
 		w.possFrom, w.possTo = d-t, d+t
 	}
@@ -1480,7 +1802,11 @@ func (c *c06Chain) judgeSig(op *c06Op, info *c06Info, a, b int64) c06Judgement {
 		w.sureTo = min64(w.sureTo, d+x-1)
 		w.possTo = min64(w.possTo, d+x)
 	}
-	return w.judge(a, b, "sig")
+	j := w.judge(a, b, "sig")
+	if j.v == c06Accept && silent != "" {
+		return c06Judgement{c06Either, silent}
+	}
+	return j
 }
 
 // candidateStores returns the states of the credential store that may have
@@ -1512,6 +1838,16 @@ func (c *c06Chain) candidateStores(rec *c06Rec) [][]c06User {
 }
 
 func (c *c06Chain) judgeBasic(op *c06Op, info *c06Info, rec *c06Rec) c06Judgement {
+	j := c.judgeBasic1(op, info, rec)
+	if j.v == c06Accept && c.initFailed[rec.gen] {
+		// outside the quantifier: the credential store could not be read when this
+		// generation was created
+		return c06Judgement{c06Either, "basic-store-unreadable-at-init"}
+	}
+	return j
+}
+
+func (c *c06Chain) judgeBasic1(op *c06Op, info *c06Info, rec *c06Rec) c06Judgement {
 	stores := c.candidateStores(rec)
 	var first c06Judgement
 	for i, st := range stores {
@@ -1532,12 +1868,18 @@ func (c *c06Chain) judgeBasicIn(users []c06User, op *c06Op, info *c06Info) c06Ju
 	if op.BasicForm != "" {
 		return c06Judgement{c06Reject, "basic-scheme"}
 	}
-	if info.mut == "basic-pass-byte" || info.mut == "basic-colon-suffix" {
+	switch info.mut {
+	case "basic-pass-byte", "basic-colon-suffix", "basic-not-base64", "basic-no-colon", "basic-empty-pass", "basic-hash-as-password":
 		return c06Judgement{c06Reject, info.mut}
 	}
 	for _, u := range users {
 		if u.Name == op.BasicUser {
 			if u.Pass == op.BasicPass {
+				if info.mut == "basic-lower-scheme" || info.mut == "basic-unpadded" {
+					// RFC 7235 auth-scheme is case-insensitive and may be followed by several
+					// spaces, RFC 7617 asks for padded base64: tolerated or not, both are fine
+					return c06Judgement{c06Either, info.mut}
+				}
 				return c06Judgement{c06Accept, ""}
 			}
 			return c06Judgement{c06Reject, "basic-wrong-password"}
@@ -1588,6 +1930,24 @@ func (c *c06Chain) describe(op *c06Op, info *c06Info) string {
 		strings.Join(m, "+"), cfg.SrvMax, w.method, target, len(w.body), info.signedLen, w.chunked, strings.Join(hs, " | "), op.SkewMs, info.mut, op.Target, op.TargetOffNs, info.exp, info.nbf, info.iat, info.sigDate)
 }
 
+var c06RewriteRe = regexp.MustCompile(`^/api/(.*)$`)
+
+func c06DecodedPath(p string) string {
+	if d, err := url.PathUnescape(p); err == nil {
+		return d
+	}
+	return p
+}
+
+func c06QueryHasSpace(q [][2]string) bool {
+	for _, kv := range q {
+		if strings.Contains(kv[0], " ") || strings.Contains(kv[1], " ") {
+			return true
+		}
+	}
+	return false
+}
+
 func c06TagMethod(tags string) string {
 	switch {
 	case strings.Contains(tags, "header validator:"):
@@ -1611,6 +1971,10 @@ func (c *c06Chain) evaluate(id string, op *c06Op, info *c06Info, rec *c06Rec, re
 	cfg := &c.cfgs[rec.gen]
 	c.jcfg = cfg
 	desc := c.describe(op, info)
+	if rec.panicMsg != "" && strings.Contains(rec.panicMsg, "access key store must be set") && cfg.Sig != nil && cfg.Sig.NoMap {
+		r.Violate("C06.sig-verify-panics-without-access-keys", "%s: a signature section with accessKeyId/accessKeySecret but without accessKeys passes the spec validation, then every request makes the handler panic (no 401, the connection is dropped): %s\n%s", id, rec.panicMsg, desc)
+		return -1, false
+	}
 	if rec.panicMsg != "" {
 		r.Violate("C06.panic", "%s: handler panicked: %s\n%s", id, rec.panicMsg, desc)
 		return -1, false
@@ -1665,7 +2029,11 @@ func (c *c06Chain) evaluate(id string, op *c06Op, info *c06Info, rec *c06Rec, re
 	accepted = rec.passed > 0
 	at := fmt.Sprintf("validator clock in [%s, %s] (unix %d.%09d)", rec.tA.UTC().Format("15:04:05.000000000"), rec.tEnd.UTC().Format("15:04:05.000000000"), a/c06S, a%c06S)
 	if accepted {
-		if rec.passed != 1 || rec.invalid != 0 || res.status != 200 || string(res.body) != "c06-let-through" {
+		wantBody := "c06-let-through"
+		if info.wire.method == "HEAD" {
+			wantBody = ""
+		}
+		if rec.passed != 1 || rec.invalid != 0 || res.status != 200 || string(res.body) != wantBody {
 			r.Violate("C06.inconsistent-outcome", "%s: request was let through %d times, invalid-branch ran %d times, client got %d %s\n%s", id, rec.passed, rec.invalid, res.status, c06Short(res.body), desc)
 			return verdict, accepted
 		}
@@ -1700,6 +2068,10 @@ func (c *c06Chain) evaluate(id string, op *c06Op, info *c06Info, rec *c06Rec, re
 		m := c06TagMethod(rec.tags)
 		class := "C06.valid-rejected." + m
 		switch {
+		case m == "signature" && strings.Contains(rec.tags, "verification failed") && c06QueryHasSpace(op.Query):
+			// every other part of such requests verifies: the canonical query of
+			// Signature V4 writes a space as %20
+			class = "C06.sig-query-space-not-v4"
 		case m == "signature" && bodyCovered && len(info.sentBody) > 0 && strings.Contains(rec.tags, "verification failed"):
 			class = "C06.sig-body-not-covered"
 		case m == "basic" && strings.Contains(op.BasicPass, ":"):
@@ -1785,11 +2157,11 @@ func c06Exec(r *sim.Run, sci interface{}) {
 					boundary, ok = info.nbf*c06S, op.JWTMode != "" && op.HasNbf
 				case "ttlhi":
 					if cfg.Sig != nil && op.SigMode != "" {
-						boundary, ok = (info.sigDate+cfg.Sig.TTLs)*c06S, cfg.Sig.TTLs > 0
+						boundary, ok = info.sigDate*c06S+cfg.Sig.ttlNs(), cfg.Sig.TTLs > 0
 					}
 				case "ttllo":
 					if cfg.Sig != nil && op.SigMode != "" {
-						boundary, ok = (info.sigDate-cfg.Sig.TTLs)*c06S, cfg.Sig.TTLs > 0
+						boundary, ok = info.sigDate*c06S-cfg.Sig.ttlNs(), cfg.Sig.TTLs > 0
 					}
 				case "presign":
 					boundary, ok = (info.sigDate+op.ExpiresS)*c06S, op.SigMode == "presign" && cfg.Sig != nil
@@ -1929,6 +2301,7 @@ func (c *c06Chain) probes(op *c06Op, info *c06Info, rec *c06Rec, v int, acc bool
 	if info.mut != "" {
 		r.Probe("c06.mut." + info.mut)
 	}
+	c.probesWide(op, info, rec, v, acc)
 	a := rec.tA.UnixNano()
 	if rec.tA.Equal(rec.tEnd) && info.mut == "" {
 		// exactly-on-boundary instants really reached (validator clock did not move during validation)
@@ -1955,7 +2328,7 @@ func (c *c06Chain) probes(op *c06Op, info *c06Info, rec *c06Rec, v int, acc bool
 			}
 		}
 		if op.SigMode != "" && cfg.Sig != nil && cfg.Sig.TTLs > 0 {
-			switch a - info.sigDate*c06S - cfg.Sig.TTLs*c06S {
+			switch a - info.sigDate*c06S - cfg.Sig.ttlNs() {
 			case -1:
 				r.Probe("c06.exact.age_is_ttl_minus_1ns")
 			case 0:
@@ -1963,7 +2336,7 @@ func (c *c06Chain) probes(op *c06Op, info *c06Info, rec *c06Rec, v int, acc bool
 			case 1:
 				r.Probe("c06.exact.age_is_ttl_plus_1ns")
 			}
-			switch a - info.sigDate*c06S + cfg.Sig.TTLs*c06S {
+			switch a - info.sigDate*c06S + cfg.Sig.ttlNs() {
 			case -1:
 				r.Probe("c06.exact.age_is_minus_ttl_minus_1ns")
 			case 0:
@@ -1999,7 +2372,7 @@ func (c *c06Chain) probes(op *c06Op, info *c06Info, rec *c06Rec, v int, acc bool
 	}
 	if op.SigMode != "" && cfg.Sig != nil && cfg.Sig.TTLs > 0 && v != c06Either {
 		age := a - info.sigDate*c06S
-		t := cfg.Sig.TTLs * c06S
+		t := cfg.Sig.ttlNs()
 		switch {
 		case age > t-c06S && age < t && acc:
 			r.Probe("c06.sig.accepted_within_1s_before_ttl")
@@ -2073,6 +2446,135 @@ func (c *c06Chain) probes(op *c06Op, info *c06Info, rec *c06Rec, v int, acc bool
 	}
 	if op.SkewMs != 0 && acc {
 		r.Probe("c06.accepted_with_clock_skew")
+	}
+}
+
+// probesWide: the ordinary request shapes and configuration options of the
+// second widening (what is reached, and with which outcome where the verdict is open).
+func (c *c06Chain) probesWide(op *c06Op, info *c06Info, rec *c06Rec, v int, acc bool) {
+	r := c.r
+	cfg := c.jcfg
+	out := map[bool]string{true: "accepted", false: "rejected"}[acc]
+	clean := info.mut == "" && v == c06Accept && acc
+	if info.wire.method == "HEAD" {
+		r.Probe("c06.method.head_" + out)
+	}
+	if strings.HasPrefix(op.Host, "[") && acc {
+		r.Probe("c06.host.ipv6_literal_accepted")
+	}
+	if op.Expect && len(info.sentBody) > 0 {
+		r.Probe("c06.body.expect_100_continue_" + out)
+	}
+	if clean {
+		for _, ru := range cfg.Rules {
+			if ru.Name != http.CanonicalHeaderKey(ru.Name) {
+				r.Probe("c06.hdr.rule_name_not_canonical_passed")
+			}
+			for _, kv := range info.wire.hdr {
+				if strings.EqualFold(kv[0], ru.Name) && strings.TrimSpace(kv[1]) == "" {
+					r.Probe("c06.hdr.allowed_empty_value_passed")
+				}
+			}
+		}
+	}
+	if cfg.JWT != nil && info.mut == "jwt-bearer-lower" {
+		r.Probe("c06.jwt.bearer_scheme_variant_" + out)
+	}
+	if cfg.JWT != nil && op.JWTMode != "" && clean {
+		if cfg.JWT.Secret != strings.ToLower(cfg.JWT.Secret) {
+			r.Probe("c06.jwt.upper_case_hex_secret_accepted")
+		}
+		if op.JWTExtra {
+			r.Probe("c06.jwt.extra_claims_and_kid_accepted")
+		}
+		if op.JWTMode == "cookie" && op.CookiePos != "" {
+			r.Probe("c06.jwt.cookie_" + op.CookiePos + "_accepted")
+		}
+		if info.otherCookies {
+			r.Probe("c06.jwt.bearer_accepted_beside_unrelated_cookies")
+		}
+	}
+	if s := cfg.Sig; s != nil && op.SigMode != "" {
+		if c06QueryHasSpace(op.Query) && info.mut == "" && v == c06Accept {
+			r.Probe("c06.sig.query_with_space_valid_" + out)
+		}
+		if clean {
+			if op.QStyle != "" && len(op.Query) > 0 {
+				r.Probe("c06.sig.query_wire_style_" + op.QStyle + "_accepted")
+			}
+			for _, it := range info.wire.query {
+				if !strings.Contains(it, "=") {
+					r.Probe("c06.sig.query_bare_parameter_accepted")
+					break
+				}
+			}
+			if info.signedCL {
+				r.Probe("c06.sig.signed_content_length_accepted")
+			}
+			if op.AuthFmt == "nospace" && op.SigMode == "header" {
+				r.Probe("c06.sig.authorization_without_spaces_accepted")
+			}
+			if s.TTLFracMs > 0 && s.TTLs > 0 {
+				r.Probe("c06.sig.fractional_ttl_accepted")
+			}
+			if s.TTLForm == "go" && s.TTLs > 0 {
+				r.Probe("c06.sig.ttl_written_as_go_duration_accepted")
+			}
+			if s.SignOpts {
+				r.Probe("c06.sig.ignored_headers_and_hoisting_configured_accepted")
+				for _, n := range op.SignHdr {
+					if n == "x-custom-a" || n == "content-type" || n == "accept" {
+						r.Probe("c06.sig.signed_header_listed_as_ignored_accepted")
+						break
+					}
+				}
+			}
+			if s.Cred[0] != "" && op.SigKey != s.Cred[0] {
+				r.Probe("c06.sig.spec_credential_pair_configured_accepted")
+			}
+		}
+		if s.Cred[0] != "" && op.SigKey == s.Cred[0] && info.mut == "" {
+			r.Probe("c06.sig.signed_with_spec_credential_pair_" + out)
+		}
+		if s.NoMap && s.Cred[0] != "" {
+			r.Probe("c06.sig.no_access_keys_map_" + out)
+		}
+		if s.Aws && s.NoPrefix && v == c06Either {
+			r.Probe("c06.sig.literal_without_key_prefix.client_uses_" + map[bool]string{true: "documented_default", false: "empty"}[op.LitDocPrefix] + "_" + out)
+		}
+		if cfg.Basic != nil && op.BasicOn && v == c06Either {
+			r.Probe("c06.sig.presigned_plus_basic_header_" + out)
+		}
+		if cfg.Rewrite && v == c06Either && c06RewriteRe.MatchString(c06DecodedPath(info.wire.path)) {
+			r.Probe("c06.sig.path_rewritten_before_validation_" + out)
+		}
+	}
+	if cfg.Rewrite && clean && cfg.Sig == nil && c06RewriteRe.MatchString(c06DecodedPath(info.wire.path)) {
+		r.Probe("c06.rewritten_path_other_methods_accepted")
+	}
+	if cfg.Basic != nil && c.initFailed[rec.gen] && v == c06Either && info.mut == "" {
+		r.Probe("c06.basic.store_unreadable_at_init.request_" + out)
+	}
+	if b := cfg.Basic; b != nil && op.BasicOn {
+		if clean {
+			for _, u := range c.users {
+				if u.Name == op.BasicUser {
+					r.Probe("c06.basic.store_" + u.Store + "_accepted")
+					if u.KeyOnly {
+						r.Probe("c06.basic.entry_without_username_accepted")
+					}
+				}
+			}
+			if b.Prefix != "" {
+				r.Probe("c06.basic.prefix_" + b.Prefix + "_accepted")
+			}
+			if b.Junk > 0 {
+				r.Probe("c06.basic.malformed_entries_in_store_accepted")
+			}
+		}
+		if info.mut == "basic-lower-scheme" || info.mut == "basic-unpadded" {
+			r.Probe("c06.basic." + info.mut + "_" + out)
+		}
 	}
 }
 
